@@ -193,8 +193,8 @@ def run(ctx):
     ctx.rule("C15.first", "MAC verification dominates the decryptor", floor=1)
     ctx.rule("C15.kinds", "four distinct info constants used symmetrically", floor=5)
     ctx.assume("AES-CBC, HKDF, HMAC and PKCS7 primitives of `cryptography`/python-axolotl are trusted")
-    cls, efn, eg, eres = analyse_direction(ctx, "encrypt")
-    _, dfn, dg, dres = analyse_direction(ctx, "decrypt")
+    cls, efn, eg, eres = ctx.guarded("C15.direction", analyse_direction, ctx, "encrypt")
+    _, dfn, dg, dres = ctx.guarded("C15.direction", analyse_direction, ctx, "decrypt")
     We = where(FILE, CLS + ".encrypt", efn.lineno)
     Wd = where(FILE, CLS + ".decrypt", dfn.lineno)
     if not eres or not dres:
